@@ -444,6 +444,19 @@ def O3_message(cls_k, unicode_mode, before_k, has_pty, closed, cmd_none, which, 
     return 4
 
 
+def dry_runs():
+    for entry in range(4):
+        for end in range(3):
+            yield 'O1_outcomes', dict(P0='p', D1='ab', D2='', nd=1, s='zz', shape=3, end=end, tmode=2, entry=entry)
+        yield 'O1_plumbing', dict(s='ab', shape=2, tmode=3, entry=entry, W=None, single=0)
+    yield 'O3_message', dict(cls_k=0, unicode_mode=True, before_k=2, has_pty=True, closed=False, cmd_none=False, which=0,
+                             listed=False, regex=False, witherr=True)
+    yield 'O3_message', dict(cls_k=1, unicode_mode=False, before_k=0, has_pty=False, closed=True, cmd_none=True, which=1,
+                             listed=False, regex=True, witherr=False)
+    for how in range(3):
+        yield 'O2_read_at_eof', dict(S='a\r\nb', c=2, how=how, size=2)
+
+
 MANIFEST_ENTRY = {
     'level_text': 'Bounded symbolic verification of the real expect_loop/eof/timeout/errored code through every '
                   'entry point (expect, expect_exact, expect_list, expect_loop, read, readline): symbolic pending '
